@@ -590,40 +590,56 @@ def props_for(prec):
     return [p for p in PROPS if not (prec == 'serving' and p == 'PropSeedStale')]
 
 
+MC_DEFS = 'MCBound == steps <= %d\nMCView == <<cache, rule, fileM, up, clock, log, steps>>'
+
+
 def model_checks(ctx, prec):
+    """Exhaustive: every history of <= 6 actions (thorough: 7) for both creation paths.  `steps` is a state variable,
+    so the bound is exact with any number of workers; `reply` is an observation and left out of the VIEW.  A
+    second, shallow run with coverage is the vacuity guard (every outcome-named action must be taken)."""
     thorough = ctx.tier == 'thorough'
     rules, seedrules = (FULL_RULES, FULL_SEED) if thorough else (QUICK_RULES, QUICK_SEED)
-    level = 7      # initial state + 6 actions
     results = {}
 
-    def one(path, trunc):
-        name = '%s%s' % (path, '-trunc' if trunc else '')
+    def one(name, path, trunc, steps, coverage):
         d = ctx.sub('mc-' + name)
         mp, cp = tlc.write_mc(d, 'Expiry', 'MC_Expiry', consts_for(['t1', 't2'], path, trunc, rules, seedrules, prec,
                                                                     9 if thorough else 7),
-                              invariants=['TypeOK', 'UnitUniform'], properties=props_for(prec), constraint='MCBound',
-                              extra_defs='MCBound == TLCGet("level") <= %d' % level)
-        results[name] = tlc.run(mp, cp, d, workers=8, timeout=3000)
+                              invariants=['TypeOK', 'UnitUniform'], properties=['PropOutcome'] + props_for(prec),
+                              constraint='MCBound', view='MCView', extra_defs=MC_DEFS % steps)
+        results[name] = tlc.run(mp, cp, d, workers=4 if coverage else 8, timeout=3000, coverage=coverage)
 
-    jobs = [('single', False), ('meta', False)] + ([('single', True), ('meta', True)] if thorough else [])
+    jobs = []
+    for path in ('single', 'meta'):
+        for trunc in ((False, True) if thorough else (False,)):
+            nm = '%s%s' % (path, '-trunc' if trunc else '')
+            jobs.append((nm, path, trunc, 7 if thorough and path == 'meta' else 6, False))
+            jobs.append((nm + '-cov', path, trunc, 4, True))
     threads = [threading.Thread(target=one, args=j) for j in jobs]
     for k in range(0, len(threads), 2):
         for t in threads[k:k + 2]:
             t.start()
         for t in threads[k:k + 2]:
             t.join()
-    for name, r in sorted(results.items()):
-        ctx.log('Expiry %s (precedence %s): %r' % (name, prec, r))
+    for name, path, trunc, steps, coverage in jobs:
+        r = results[name]
+        ctx.log('Expiry %s (precedence %s, histories <= %d): %r' % (name, prec, steps, r))
         if r.violated:
-            path = 'meta' if name.startswith('meta') else 'single'
-            reproduce_counterexample(ctx, r, path, 'sqlite' if name.endswith('trunc') else 'file')
+            if not coverage:
+                reproduce_counterexample(ctx, r, path, 'sqlite' if trunc else 'file')
             continue
         if not r.ok:
             raise tlc.MachineryError('Expiry.tla %s: %r\n%s' % (name, r, r.out[-1500:]))
-        missing = [a for a in ACTIONS if r.coverage.get(a, (0, 0))[0] == 0]
-        if missing:
-            raise tlc.MachineryError('Expiry.tla %s: actions never taken: %s' % (name, missing))
-        ctx.add_tlc('Expiry/' + name, r)
+        if coverage:
+            # the meta path has no stale fallback: a failed refresh is reported
+            expect = [a for a in ACTIONS if not (path == 'meta' and a == 'RequestStaleServed')]
+            missing = [a for a in expect if r.coverage.get(a, (0, 0))[0] == 0]
+            if missing:
+                raise tlc.MachineryError('Expiry.tla %s: actions never taken: %s' % (name, missing))
+            if path == 'meta' and r.coverage.get('RequestStaleServed', (0, 0))[0] != 0:
+                raise tlc.MachineryError('Expiry.tla %s: stale fallback on the meta path?' % name)
+        else:
+            ctx.add_tlc('Expiry/' + name, r)
 
 
 def reproduce_counterexample(ctx, r, path, backend):
